@@ -242,7 +242,13 @@ class H2EventSource:
             ev.fields["weight"] = mk_int(w)
             ev.fields["exclusive"] = SymBool(z3.Bool(ctx.fresh_name("ev.exclusive")))
         elif cls is h2.events.RemoteSettingsChanged:
-            ev.fields["changed_settings"] = SObj("pyvc:ChangedSettings", {"has_iws": SymBool(z3.Bool(ctx.fresh_name("ev.changes_initial_window")))})
+            # h2 commits the peer's settings before it delivers the event: for a changed setting
+            # new_value is already the connection's value, original_value the one before
+            nv, ov = ctx.fresh("ev.iws.new", I), ctx.fresh("ev.iws.original", I)
+            ctx.assume(z3.And(nv >= 0, ov >= 0, nv != ov))
+            ev.fields["changed_settings"] = SObj("pyvc:ChangedSettings", {"has_iws": SymBool(z3.Bool(ctx.fresh_name("ev.changes_initial_window"))), "new": nv, "original": ov})
+            if self.conn is not None:
+                self.conn.fields["remote_iws"] = nv
         return ev
 
 
@@ -281,6 +287,36 @@ class ChangedSettingsModel:
         if args[0] is h2.settings.SettingCodes.INITIAL_WINDOW_SIZE:
             return obj.fields["has_iws"].e
         return z3.Bool(interp.ctx.fresh_name("changed_has"))
+
+    def _setting(self, interp, obj):
+        return SObj("pyvc:ChangedSetting", {"setting": h2.settings.SettingCodes.INITIAL_WINDOW_SIZE, "original_value": mk_int(obj.fields["original"]), "new_value": mk_int(obj.fields["new"])}, tag="changed_setting")
+
+    def m_get(self, interp, obj, args, kwargs, fr):
+        if args[0] is not h2.settings.SettingCodes.INITIAL_WINDOW_SIZE or "new" not in obj.fields:
+            raise __import__("pyvc.ctx", fromlist=["Unsupported"]).Unsupported("changed_settings.get() of another setting")
+        if interp.ctx.branch(obj.fields["has_iws"].e, f"changes initial window@{fr.line}"):
+            return self._setting(interp, obj)
+        return args[1] if len(args) > 1 else None
+
+    def m___getitem__(self, interp, obj, args, kwargs, fr):
+        from .ops import mk_exc
+
+        if args[0] is not h2.settings.SettingCodes.INITIAL_WINDOW_SIZE or "new" not in obj.fields:
+            raise __import__("pyvc.ctx", fromlist=["Unsupported"]).Unsupported("changed_settings[...] of another setting")
+        if interp.ctx.branch(obj.fields["has_iws"].e, f"changes initial window@{fr.line}"):
+            return self._setting(interp, obj)
+        raise mk_exc(KeyError, "INITIAL_WINDOW_SIZE", where=fr.where())
+
+
+@register(name="pyvc:ChangedSetting")
+class ChangedSettingModel:
+    pass
+
+
+@register(name="pyvc:RemoteSettings")
+class RemoteSettingsModel:
+    def get_initial_window_size(self, interp, obj, fr):
+        return mk_int(obj.fields["conn"].fields["remote_iws"])
 
 
 @register(name="pyvc:H2Events")
@@ -365,6 +401,13 @@ class H2ConnModel:
 
     def get_max_outbound_frame_size(self, interp, obj, fr):
         return mk_int(obj.fields["mfs"])
+
+    def get_remote_settings(self, interp, obj, fr):
+        if "remote_iws" not in obj.fields:
+            v = interp.ctx.fresh("h2.remote.initial_window_size", I)
+            interp.ctx.assume(v >= 0)
+            obj.fields["remote_iws"] = v
+        return SObj("pyvc:RemoteSettings", {"conn": obj}, tag="remote_settings")
 
     # -- helpers ---------------------------------------------------------------------------
     def _may_fail(self, interp, fr, what, excs):
